@@ -20,6 +20,7 @@ use std::time::Duration;
 
 const F_HOLD: u64 = 1; // first attempt is held by the server (so it is in flight at fault time)
 const F_NONIDEM: u64 = 2; // not idempotent
+const F_PAGED: u64 = 4; // read through the paging iterator: 4 rows, page size 1, slow consumer
 
 #[derive(Default)]
 struct C10Script {
@@ -44,6 +45,13 @@ impl Script for C10Script {
                 w.conns[conn].cut = Some(Cut { at: offset, kind, before_frame: None, inject: vec![] });
             }
         }
+    }
+    fn rows_for(&mut self, _w: &mut World, rq: &ReqInfo, stmt: &crate::cluster::StmtDef) -> Vec<Vec<crate::wire::Cell>> {
+        let rows = crate::cluster::default_rows(stmt, rq.marker);
+        if rq.marker.map(|m| m & F_PAGED != 0).unwrap_or(false) {
+            return vec![rows[0].clone(); 4];
+        }
+        rows
     }
     fn on_user_request(&mut self, _w: &mut World, rq: &ReqInfo, req: &Request) -> Reply {
         if matches!(req, Request::Prepare { .. }) {
@@ -375,15 +383,42 @@ async fn main(plan: Plan) -> Outcome {
         for _ in 0..plan.in_flight {
             idx += 1;
             let nonidem = plan.enumerated.is_none() && tape::chance("c10:nonidem", 1, 3);
-            let m = idx * 16 + F_HOLD + if nonidem { F_NONIDEM } else { 0 };
+            // 1 in 5 (sampled runs): a paged read of 4 rows with page size 1 and a slow
+            // consumer - page requests keep flowing while the fault strikes; the stream
+            // must deliver all rows or fail, never end early without an error.
+            let paged = plan.enumerated.is_none() && !nonidem && tape::chance("c10:paged", 1, 5);
+            let m = idx * 16 + F_HOLD + if nonidem { F_NONIDEM } else { 0 } + if paged { F_PAGED } else { 0 };
             let session = session.clone();
             handles.push((
                 m,
                 tokio::spawn(async move {
                     let mut st = Statement::new(client::q_marker(m));
                     st.set_is_idempotent(!nonidem);
+                    if paged {
+                        use futures::StreamExt;
+                        st.set_page_size(1);
+                        let r: Result<Option<scylla::response::query_result::QueryResult>, String> = async {
+                            let pager = session.query_iter(st, ()).await.map_err(|e| format!("{e}").chars().take(120).collect::<String>())?;
+                            let mut rs = pager.rows_stream::<(i64,)>().map_err(|e| e.to_string())?;
+                            let mut n = 0;
+                            while let Some(row) = rs.next().await {
+                                let (v,) = row.map_err(|e| format!("{e}").chars().take(120).collect::<String>())?;
+                                if v != m as i64 {
+                                    return Err(format!("WRONG row {v} for marker {m}"));
+                                }
+                                n += 1;
+                                world::sleep_ns(50 * MS).await;
+                            }
+                            if n != 4 {
+                                return Err(format!("PARTIAL the stream ended without an error after {n} of 4 rows"));
+                            }
+                            Ok(None)
+                        }
+                        .await;
+                        return (r, world::now_ns());
+                    }
                     let r = session.query_unpaged(st, ()).await;
-                    (r.map_err(|e| client::short_err(&e)), world::now_ns())
+                    (r.map(Some).map_err(|e| client::short_err(&e)), world::now_ns())
                 }),
             ));
         }
@@ -476,10 +511,14 @@ async fn main(plan: Plan) -> Outcome {
                 Ok(Err(e)) => out.violation("c10.client_task", format!("client task failed: {e}")),
                 Ok(Ok((Ok(qr), _t))) => {
                     total_ok += 1;
-                    if let Err(e) = client::check_marker_rows(qr, m) {
-                        out.violation("c10.attribution", e);
+                    if let Some(qr) = qr {
+                        if let Err(e) = client::check_marker_rows(qr, m) {
+                            out.violation("c10.attribution", e);
+                        }
+                    } else {
+                        out.count("paged_streams_completed", 1);
                     }
-                    if doomed.contains(&m) {
+                    if doomed.contains(&m) && m & F_PAGED == 0 {
                         // Its only way to succeed is a re-send after the failure.
                         let mut w = world::world();
                         let mut s = w.script.take().unwrap();
@@ -504,7 +543,13 @@ async fn main(plan: Plan) -> Outcome {
                         }
                     }
                 }
-                Ok(Ok((Err(_e), _t))) => {
+                Ok(Ok((Err(e), _t))) => {
+                    if e.starts_with("PARTIAL") {
+                        out.violation("c10.partial_result_without_error", format!("paged read marker {m} (faults {injected:?}): {e}"));
+                    }
+                    if e.starts_with("WRONG") {
+                        out.violation("c10.attribution", e.clone());
+                    }
                     total_err += 1;
                     if doomed.contains(&m) {
                         out.count("doomed_failed", 1);
@@ -729,7 +774,7 @@ async fn main(plan: Plan) -> Outcome {
         let mut s = w.script.take().unwrap();
         let sc = s.as_any().downcast_mut::<C10Script>().unwrap();
         for (m, conns) in &sc.attempts {
-            if m & F_NONIDEM != 0 && conns.len() > 1 {
+            if m & F_NONIDEM != 0 && m & F_PAGED == 0 && conns.len() > 1 {
                 out.violation(
                     "c10.nonidempotent_resent",
                     format!("non-idempotent request marker {m} was received {} times (connections {conns:?})", conns.len()),
